@@ -1,6 +1,7 @@
 #ifndef AI_TOOLBOX_POMDP_RTBSS_HEADER_FILE
 #define AI_TOOLBOX_POMDP_RTBSS_HEADER_FILE
 
+#include <algorithm>
 #include <limits>
 
 #include <AIToolbox/POMDP/Types.hpp>
@@ -153,7 +154,9 @@ namespace AIToolbox::POMDP {
 
     template <IsModel M>
     double RTBSS<M>::upperBound(const Belief &, const size_t, const unsigned horizon) const {
-        return model_.getDiscount() * maxR_ * horizon;
+        // With a negative maxR_ the product below would not be an upper bound
+        // (it is lower than the true discounted sum), so we clamp it to zero.
+        return model_.getDiscount() * std::max(maxR_, 0.0) * horizon;
     }
 
     template <IsModel M>
